@@ -68,7 +68,7 @@ Proof.
   - rewrite cadd_total by lia. cbn [bind]. apply IH; lia.
 Qed.
 
-Lemma sincr_total rows b delta neg : (smaxkey rows <= b)%N ->
+Lemma sincr_total rows b delta (neg : bool) : (smaxkey rows <= b)%N ->
   (if neg then (delta <= scur rows)%N else (scur rows + delta < two128)%N) ->
   exists rows', sincr rows b delta neg = Ok rows'.
 Proof.
@@ -126,6 +126,21 @@ Proof.
   pose proof (vsum_del_all (ab_spent b) (ufold C)). lia.
 Qed.
 
+Lemma wsum_del_all (w : elem -> N) : forall l u, ssorted eid u -> (forall e, In e l -> In e u) -> NoDup (ids l) ->
+  wsum w u = (wsum w (del_all l u) + wsum w l)%N.
+Proof.
+  induction l as [|e t IH]; intros u S Hin ND; cbn [del_all wsum]; [lia|].
+  assert (In e u) as He by (apply Hin; left; reflexivity).
+  assert (tmem eid (eid e) u = true) as Hmem by (apply tmem_In; exists e; auto).
+  destruct (tdel_some eid (eid e) u Hmem) as [u1 Ed]. rewrite Ed.
+  destruct (tdel_spec eid (eid e) u u1 S Ed) as [S1 [I1 _]].
+  inversion ND as [|? ? Hnot ND']; subst.
+  assert (forall e', In e' t -> In e' u1) as Hin1.
+  { intros e' He'. apply I1. split; [apply Hin; right; exact He'|].
+    intros E. apply Hnot. rewrite <- E. apply in_map. exact He'. }
+  rewrite (wsum_tdel w eid e u u1 S He Ed), (IH u1 S1 Hin1 ND'). lia.
+Qed.
+
 (** * One block *)
 Lemma wallet_apply_total s C b : winv s C -> valid_chain (b :: C) -> (csum (b :: C) < two128)%N ->
   exists s', wallet_apply s b = Ok s'.
@@ -133,20 +148,118 @@ Proof.
   intros [HC [HU [HE HB]]] HV Bd. pose proof HV as HV'. cbn [valid_chain] in HV'.
   destruct HV' as [_ [Hh [Hsp [NDs [Hcr [NDc _]]]]]].
   assert (ssorted eid (utxos s)) as S by (rewrite HU; apply ufold_sorted).
-  pose proof (vsum_ufold C) as VU. cbn [csum] in Bd. rewrite <- HU in Hsp, Hcr, VU.
+  pose proof (vsum_ufold C) as VU. pose proof (vsum_ufold (b :: C)) as VU2.
+  cbn [ufold csum] in VU2. cbn [csum] in Bd. rewrite <- HU in Hsp, Hcr, VU, VU2.
   set (h := ih (ab_idx b)). set (U := utxos s) in *.
-  assert (bal_below s h) as Hbelow.
+  assert (bal_below s h) as [Hb Hi].
   { destruct C as [|t C'].
     - cbn [ufold] in HU. unfold bal_below. destruct HB as [B1 B2]. unfold U in *. rewrite HU in *. cbn in *. lia.
     - cbn [tip_height] in HB. unfold h. rewrite Hh. apply bal_below_of_at. exact HB. }
-  destruct Hbelow as [Hb Hi]. fold U in Hb, Hi.
+  fold U in Hb, Hi.
   pose proof (vsum_split h U) as VS. pose proof (qsum_le_msum h U) as QM. pose proof (isum_qsum_le h U) as IQ.
+  pose proof (wsum_del_all (mval h) (ab_spent b) U S Hsp NDs) as DM.
+  pose proof (wsum_del_all (ival h) (ab_spent b) U S Hsp NDs) as DI.
+  fold (msum h U) in DM. fold (isum h U) in DI.
+  pose proof (wsum_mi h (ab_created b)) as CMI.
   unfold wallet_apply. fold h. fold U.
   destruct (matured_sum_total h U 0) as [m Em]; [lia|]. rewrite Em. cbn [bind].
   pose proof (matured_sum_spec U h 0 m Em) as Hm.
-  (* spent rows are rows of U *)
-  destruct (delete_elems U (ab_spent b) h 0 0) as [[[u1 mo] io]| |] eqn:Ed.
-  2,3: exfalso; destruct (delete_elems_total h (ab_spent b) U 0 0 S Hsp NDs) as [r Er];
-       [pose proof (wsum_mi h (ab_spent b)); pose proof (del_all_spec (ab_spent b) U S); idtac|idtac|rewrite Er in Ed; discriminate].
-  all: try (cbn [bind]).
-Abort.
+  destruct (delete_elems_total h (ab_spent b) U 0 0 S Hsp NDs) as [[[u1 mo] io] Ed]; [lia|lia|].
+  rewrite Ed. cbn [bind].
+  destruct (delete_elems_spec h _ _ _ _ _ _ _ S Hsp NDs Ed) as [E1 [S1 [I1 [M1 [J1 [Mo Io]]]]]].
+  assert (forall e, In e (ab_created b) -> tmem eid (eid e) u1 = false) as Hcr1.
+  { intros e He. apply tmem_false_In. intros y Hy E. apply I1 in Hy. destruct Hy as [Hy _].
+    apply (proj1 (tmem_false_In eid (eid e) U) (Hcr e He) y Hy E). }
+  destruct (create_elems_total h (ab_created b) u1 0 0) as [[[u2 mi] ii] Ec]; [lia|lia|].
+  rewrite Ec. cbn [bind].
+  destruct (create_elems_spec h _ _ _ _ _ _ _ S1 Hcr1 NDc Ec) as [E2 [S2 [I2 [M2 [J2 [Mi Ii]]]]]].
+  rewrite cadd_total by lia. cbn [bind]. rewrite cadd_total by lia. cbn [bind].
+  assert (vsum u2 < two128)%N as VB by (subst u2 u1; lia).
+  pose proof (vsum_split h u2) as VS2.
+  destruct (update_balance_total (mbal s) (mimm s) (mi + m) mo ii (io + m) (ab_ts b) (msum h u2) (isum h u2)) as [[bal imm] Eu]; try lia.
+  rewrite Eu. cbn [bind]. eexists; reflexivity.
+Qed.
+
+Lemma wallet_revert_total s b C r : winv s (b :: C) ->
+  rb_idx r = ab_idx b -> rb_removed r = ab_created b -> rb_unspent r = ab_spent b ->
+  (csum (b :: C) < two128)%N -> exists s', wallet_revert s r = Ok s'.
+Proof.
+  intros [HV [HU [HE HB]]] Ei Er Eu Bd. pose proof HV as HV'. cbn [valid_chain] in HV'.
+  destruct HV' as [HC [Hh [Hsp [NDs [_ [NDc _]]]]]].
+  destruct (revert_utxos b C HV) as [R1 [R2 R3]].
+  assert (ssorted eid (utxos s)) as S by (rewrite HU; apply ufold_sorted).
+  pose proof (vsum_ufold C) as VU. pose proof (vsum_ufold (b :: C)) as VX. cbn [csum] in Bd, VX.
+  cbn [tip_height] in HB. destruct HB as [Hb Hi].
+  set (h := ih (ab_idx b)) in *. set (X := utxos s) in *. rewrite <- HU in R1, R2, R3, VX.
+  set (U := ufold C) in *.
+  pose proof (wsum_del_all (mval h) (ab_created b) X S R1 NDc) as DM.
+  pose proof (wsum_del_all (ival h) (ab_created b) X S R1 NDc) as DI.
+  fold (msum h X) in DM. fold (isum h X) in DI.
+  pose proof (vsum_split h X) as VSX.
+  pose proof (wsum_del_all (mval h) (ab_spent b) U (ufold_sorted C) Hsp NDs) as SM.
+  pose proof (wsum_del_all (ival h) (ab_spent b) U (ufold_sorted C) Hsp NDs) as SI.
+  fold (msum h U) in SM. fold (isum h U) in SI.
+  pose proof (vsum_split h U) as VSU. pose proof (qsum_le_msum h U) as QM. pose proof (isum_qsum_le h U) as IQ.
+  pose proof (wsum_mi h (ab_created b)) as CMI.
+  unfold wallet_revert. rewrite Ei, Er, Eu. fold h. fold X.
+  destruct (delete_elems_total h (ab_created b) X 0 0 S R1 NDc) as [[[u1 mo] io] Ed]; [lia|lia|].
+  rewrite Ed. cbn [bind].
+  destruct (delete_elems_spec h _ _ _ _ _ _ _ S R1 NDc Ed) as [E1 [S1 [I1 [M1 [J1 [Mo Io]]]]]].
+  rewrite <- E1 in R2, R3.
+  destruct (create_elems_total h (ab_spent b) u1 0 0) as [[[u2 mi] ii] Ec]; [lia|lia|].
+  rewrite Ec. cbn [bind].
+  destruct (create_elems_spec h _ _ _ _ _ _ _ S1 R2 NDs Ec) as [E2 [S2 [I2 [M2 [J2 [Mi Ii]]]]]].
+  assert (u2 = U) as EU by (rewrite E2; exact R3). rewrite EU in *.
+  destruct (matured_sum_total h U 0) as [m Em]; [lia|]. rewrite Em. cbn [bind].
+  pose proof (matured_sum_spec U h 0 m Em) as Hm.
+  rewrite cadd_total by lia. cbn [bind]. rewrite cadd_total by lia. cbn [bind].
+  destruct (update_balance_total (mbal s) (mimm s) mi (mo + m) (ii + m) io (rb_ts r)
+              (msum h U - qsum h U) (isum h U + qsum h U)) as [[bal imm] Eb]; try lia.
+  rewrite Eb. cbn [bind]. eexists; reflexivity.
+Qed.
+
+Lemma csum_app X Y : csum (X ++ Y) = (csum X + csum Y)%N.
+Proof. induction X as [|b X IH]; cbn [app csum]; [reflexivity|]. rewrite IH. lia. Qed.
+
+Lemma applies_total : forall bs s C, winv s C -> valid_chain (rev bs ++ C) -> (csum (rev bs ++ C) < two128)%N ->
+  exists s', wallet_applies s bs = Ok s'.
+Proof.
+  induction bs as [|b t IH]; intros s C W V Bd; cbn [wallet_applies]; [eexists; reflexivity|].
+  cbn [rev] in V, Bd. rewrite <- app_assoc in V, Bd. cbn [app] in V, Bd.
+  pose proof (valid_chain_app (rev t) (b :: C) V) as Vb.
+  assert (csum (b :: C) < two128)%N as Bb by (rewrite csum_app in Bd; lia).
+  destruct (wallet_apply_total s C b W Vb Bb) as [s1 E1]. rewrite E1. cbn [bind].
+  destruct (winv_apply s C b s1 W Vb E1) as [W1 _].
+  exact (IH s1 (b :: C) W1 V Bd).
+Qed.
+
+Lemma firstn_skipn_csum n (C : list ablock) : (csum (skipn n C) <= csum C)%N.
+Proof.
+  rewrite <- (firstn_skipn n C) at 2. rewrite csum_app. lia.
+Qed.
+
+Lemma reverts_total : forall rs s C, winv s C -> wf_reverts C rs -> (csum C < two128)%N ->
+  exists s', wallet_reverts s rs = Ok s'.
+Proof.
+  induction rs as [|r t IH]; intros s C W F Bd; cbn [wallet_reverts]; [eexists; reflexivity|].
+  destruct C as [|b C]; [destruct F|]. cbn [wf_reverts] in F. destruct F as [F1 [F2 [F3 [_ F5]]]].
+  destruct (wallet_revert_total s b C r W F1 F2 F3 Bd) as [s1 E1]. rewrite E1. cbn [bind].
+  destruct (winv_revert s b C r s1 W F1 F2 F3 E1) as [W1 _].
+  apply (IH s1 C W1 F5). cbn [csum] in Bd. lia.
+Qed.
+
+(* every well-formed batch succeeds while the total value created on the chains involved stays
+   in the currency range *)
+Theorem batch_never_fails s C rs bs : reach s C -> wf_batch C rs bs ->
+  (csum C < two128)%N -> (csum (chain_after C rs bs) < two128)%N ->
+  exists s', batch s rs bs = Ok s'.
+Proof.
+  intros R [F V] B1 B2. pose proof (reach_winv s C R) as W. unfold chain_after in *.
+  destruct (reverts_total rs s C W F B1) as [s1 E1].
+  destruct (winv_reverts rs s C s1 W F E1) as [W1 _].
+  destruct (applies_total bs s1 _ W1 V B2) as [s2 E2].
+  unfold batch. destruct rs as [|r rs']; [destruct bs as [|b bs']|].
+  - eexists; reflexivity.
+  - rewrite E1. cbn [bind]. rewrite E2. cbn [bind]. eexists; reflexivity.
+  - rewrite E1. cbn [bind]. rewrite E2. cbn [bind]. eexists; reflexivity.
+Qed.
